@@ -58,7 +58,7 @@ func fwdPkgPositions(r *an.Run) {
 					n++
 					fn := s.Fn
 					want := "uint16($key(" + fn.Canon(base) + "." + list + "))"
-					got := fn.Canon(call.Args[0])
+					got := c08Canon(fn, call.Args[0])
 					o.Site("%s %s.%s(%s)", s.Where(), an.Text(sel.X), sel.Sel.Name, got)
 					if got != want {
 						if why := companionIndex(fn, call.Args[0], want); why != "" {
@@ -117,7 +117,7 @@ func fwdPkgPositions(r *an.Run) {
 							o.FailAt(root.ID+"#ref-literal-height", where, "the reference literal takes its Height from %s, expected %s.Height (the package its Source names)", h, base)
 						}
 						want := "uint16($key(" + base + "." + list + "))"
-						if got := fn.Canon(kv["Index"]); got != want {
+						if got := c08Canon(fn, kv["Index"]); got != want {
 							o.FailAt(root.ID+"#ref-literal-position", where, "the reference literal has Index %s, expected %s (the update's position in the package)", got, want)
 						}
 						if w := c08KeyWritten(fn, kv["Index"]); w != "" {
@@ -198,14 +198,22 @@ func c08WritesOf(f *an.Func, obj types.Object, partial bool) []string {
 					out = append(out, root.Where(x.Pos())+" "+an.Text(x))
 				}
 			}
-			for _, r := range x.Rhs {
+			for i, r := range x.Rhs {
 				if addrOf(r) {
+					if x.Tok == token.DEFINE && len(x.Lhs) == len(x.Rhs) {
+						if li, ok := x.Lhs[i].(*ast.Ident); ok && c08PassThroughAlias(root, li) {
+							continue // travels into a literal as `Field: &obj` would
+						}
+					}
 					out = append(out, root.Where(x.Pos())+" "+an.Text(x)+" (address bound to a variable)")
 				}
 			}
 		case *ast.ValueSpec:
-			for _, r := range x.Values {
+			for i, r := range x.Values {
 				if addrOf(r) {
+					if len(x.Names) == len(x.Values) && c08PassThroughAlias(root, x.Names[i]) {
+						continue // travels into a literal as `Field: &obj` would
+					}
 					out = append(out, root.Where(x.Pos())+" "+an.Text(x)+" (address bound to a variable)")
 				}
 			}
@@ -242,6 +250,10 @@ func c08KeyWritten(f *an.Func, e ast.Expr) string {
 				return true
 			}
 			seen[v] = true
+			if c08IsIndexLoopKey(f, v) {
+				// validated: written by nothing but the loop's own post statement
+				return true
+			}
 			if c08IsRangeKey(f, v) {
 				if w := c08WritesOf(f, v, true); len(w) > 0 && why == "" {
 					why = id.Name + " is written at " + w[0]
